@@ -26,5 +26,16 @@ Theorem C06_parse_args_strict_implies_lenient : forall fl fl',
   forall c op cva, parse_args fl c op = Ok cva -> parse_args fl' c op = Ok cva.
 Proof. exact parse_args_weaker. Qed.
 
-(* C06_permutation (reordering spends / conditions never changes verdict, cost or aggregates) is not
-   proved yet; it is checked on the implementation and the model for every generated bundle. *)
+(* Second clause.  Two generator outputs whose parsed bundles are reorderings of each other — spends
+   permuted, conditions permuted inside spends (bundle_perm) — are accepted alike, and the table cost,
+   the reserved fee, the amounts and the multiset of all conditions (hence every max/min/sum aggregate of
+   the summary) are equal.  Listing order and the positional fast-forward flag are outside the statement. *)
+From ChiaV.Cond Require Import Syntax Collect Totals Final Declarative Perm.
+From Coq Require Import Permutation.
+Theorem C06_permutation_invariance : forall vk H K fl V t t' ps ps' max_cost clvm_cost,
+  tree_syntax fl t = Ok ps -> tree_syntax fl t' = Ok ps' -> bundle_perm ps ps' ->
+  ((exists r, parse_spends vk H K fl V t max_cost clvm_cost = Ok r) <->
+   (exists r, parse_spends vk H K fl V t' max_cost clvm_cost = Ok r)) /\
+  total_cost fl ps = total_cost fl ps' /\ tot_fee ps = tot_fee ps' /\ tot_removal ps = tot_removal ps' /\
+  tot_addition ps = tot_addition ps' /\ Permutation (all_known ps) (all_known ps').
+Proof. exact permutation_invariance. Qed.
